@@ -77,6 +77,20 @@ CHECKS = {
             "| lists run by the real binary; after every command the buffer (written to a file), the command's stdout and the current "
             "line are compared with models/lined.py; mark identity is asserted independently of the calibrated mark rules.",
             "Reference line editor trusted with its documented calibrations; sampled.", "3/C06"),
+    "C17": ("exploration", "exhaustive enumeration of all code points + property-based testing of the layout functions against a tiling predicate",
+            "uc_wid/uc_isbell/uc_iscomb for every code point against a linear scan of the same tables; generated lines (tabs, wide, "
+            "zero-width, placeholder, RTL characters) x order/td/lim options through ren_position, ren_pos, ren_off, ren_next, ren_cursor, "
+            "ren_noeol, ren_wid in the ASan probe: gap-free tiling in visual order, logical order for plain lines, offset/column round trip, "
+            "neighbour moves stopping at the line ends.",
+            "Width and placeholder tables are configuration read from the tree under test; which visual order is chosen is C18's "
+            "subject, the tiling predicate is independent of it.", "3/C17"),
+    "C18": ("exploration", "exhaustive enumeration of joining contexts + property-based testing of reordering against a run-reversal reference",
+            "Every letter of the joining set in every neighbour context (with and without diacritics) through uc_shape against joining data "
+            "derived from the Unicode character database; generated mixed-direction lines x td x order through dir_reorder: always a "
+            "permutation with the terminator last, base direction per README, identity for plain lines, exactly the reversed runs for lines "
+            "without mark characters.",
+            "Lines containing the configured mark patterns are checked for the permutation property only; direction classes are read "
+            "from conf.h of the tree under test.", "3/C18"),
 }
 
 ALL = ["C%02d" % i for i in range(1, 21)]
